@@ -7,7 +7,8 @@ from props import _txw
 SPEC = {
     "uses_gen": False,
     "cmd": "c13",
-    "budget": (400, 10000),
+    "budget": (400, 8000),
+    "search_seeds": 1,
     "header": "From Sky Require Import Base.Uint Model.ArithSpec Model.TxVerify Model.Create Model.Sign.\nOpen Scope Z_scope.",
     "gen_header": "",
     "corr": "C13_corr.v",
